@@ -283,3 +283,15 @@ Definition h_demo : list op :=
   [Mkdir [4]; O_RWC 1 [4; 1]; WriteAt 1 0 [65; 66; 67; 68] false; SetLen 1 2 false; SyncDir [];
    WriteAt 1 4 [69] true; SyncDir [4]; Open 2 [4; 1] true false false false false false;
    Read 2 8; Unlink [4; 1]; Readdir [4]; Spit [2] [70; 71] false; Slurp [2]; Rmdir [4]; Exists [4]].
+
+(* ---- a history with a clean rename (non-vacuity of the rename-inclusive theorem) -------------------------- *)
+From TV.Fs Require Import FsDurable FsKnown.
+Definition h_rename : list op :=
+  [Open 1 [2] true true false false true false; WriteAt 1 0 [65] false; SyncAll 1; Close 1;
+   Rename [2] [3]; Stat [2]; Slurp [3]; Readdir []; Open 2 [3] true false false false false false; ReadAt 2 0 4;
+   SyncDir []; Slurp [3]].
+Lemma rename_nonvacuous_lemma :
+  forallb c10r_op h_rename = true /\ ksafe 0 h_rename = true /\
+  snd (run (init_world 0) h_rename) =
+    [OOk; ONum 1; OOk; OOk; OOk; OErr ENOENT; OBytes [65]; ONames [3]; OOk; OBytes [65]; OOk; OBytes [65]].
+Proof. vm_compute. repeat split; reflexivity. Qed.
